@@ -249,6 +249,25 @@ def run(ctx: Ctx) -> int:
                 via_text = [c_ for c_ in ast.walk(df_) if isinstance(c_, ast.Call) and isinstance(c_.func, ast.Name) and c_.func.id in ("repr", "str") and c_.args and isinstance(c_.args[0], ast.Name) and c_.args[0].id == dpar]
                 ok = bool(tests_f and via_text)
                 ctx.oblige("C20.c.i", ok, df_, f"{dname} reads a float through its text" if ok else f"{dname} constructs {tname} from the binary float: the config text `d: 0.1` gives Decimal('0.1000000000000000055511151231257827...') while --d=0.1 gives Decimal('0.1') - and the dumped number does not read back as the value that was dumped", fn=df_, construct=f"{tname} floats read through their text")
+        # (i'') the constructor of an exact type (Decimal) keeps every digit; arithmetic on the result does not: it is
+        #       rounded to the context precision (28 digits).  A deserializer hands out the constructed value untouched.
+        if dname in local_fns and tname.split(".")[-1] == "Decimal":
+            df_ = local_fns[dname]
+            cls_leaf = tname.split(".")[-1]
+
+            def _ctor_inside(e):
+                return any(isinstance(c_, ast.Call) and (dotted(c_.func) or "").split(".")[-1] == cls_leaf for c_ in ast.walk(e))
+
+            for r in [x for x in walk_local(df_) if isinstance(x, ast.Return) and x.value is not None]:
+                arms_ = [r.value.body, r.value.orelse] if isinstance(r.value, ast.IfExp) else [r.value]
+                for e in arms_:
+                    if isinstance(e, ast.Name):
+                        ds_ = [s_ for s_ in walk_local(df_) if isinstance(s_, ast.Assign) and any(isinstance(t, ast.Name) and t.id == e.id for t in s_.targets)]
+                        e = ds_[-1].value if ds_ else e
+                    if not _ctor_inside(e):
+                        continue
+                    exact = isinstance(e, ast.Call) and (dotted(e.func) or "").split(".")[-1] == cls_leaf
+                    ctx.oblige("C20.c.i", exact, r, f"{dname} returns what the {cls_leaf} constructor gives" if exact else f"{dname} applies `{ast.unparse(e)[:60]}` to the constructed {cls_leaf}: methods and operators of {cls_leaf} round to the context precision (28 significant digits), the constructor alone is exact - Decimal('0.1000000000000000000000000000001') is dumped exactly and read back as Decimal('0.1')", fn=df_, construct=f"{tname} deserializer returns the constructed value")
         # (ii) pairs defined together
         if sname in local_fns or (dname in local_fns):
             ok = (sname in local_fns or sname == "str") and (dname in local_fns)
